@@ -860,4 +860,359 @@ Proof.
     + split; [exact R1|]. split; [exact Wi|]. left. cbn. rewrite Hs1. reflexivity.
 Qed.
 
+
+(* ------------------------------------------------------------------------------------------ *)
+(* do_pass_token, do_await_status_response, do_check_token_pass                                 *)
+
+Lemma do_pass_token_wp f now (w : W) : Rep n f -> time_ok now -> w_tx w = None -> Winv w ->
+  kind_of (f_state f) = KPassToken ->
+  wp (do_pass_token A f now w) PostRW.
+Proof.
+  intros R Tn Hw Wi Hk. unfold do_pass_token, assert_entry. rewrite Hk. cbn [do_fn_entry state_kind_eqb bind].
+  destruct (f_state f) as [| | | | | | |dg att| |] eqn:Hs; try discriminate Hk.
+  eapply wp_bind; [apply (wait_sync_wp n); assumption|].
+  intros [f1 wait] (R1 & S1). cbn [fst] in *.
+  destruct wait; [cbn; split; [exact R1|apply Winv_note, Wi]|].
+  assert (Hs1 : f_state f1 = PassToken dg att) by (rewrite (sb_state _ _ S1); exact Hs).
+  assert (Hon : f_conn f1 = ConnOnline) by (apply (Rep_online n); [exact R1|rewrite Hs1; discriminate]).
+  rewrite Hs1. cbn [get_pass_token bind].
+  pose proof (Rep_ts n f1 R1) as Hts. pose proof (bv_ranges _ (rep_p _ _ R1)) as Hbv.
+  assert (Hgi : forall g, st_ok n (f_p f1) g (f_next_app f1) (f_state f1)) by (intros g; rewrite Hs1; exact I).
+  eapply wp_bind with (P := fun x => let '(f2, w2, polled) := x in
+     Rep n f2 /\ Winv w2 /\ f_state f2 = PassToken dg att /\ f_conn f2 = ConnOnline /\
+     match polled with Some a => f_gap f2 = GapDoPoll a /\ a <> ts f2 | None => w_tx w2 = None end).
+  - destruct dg.
+    + eapply wp_bind with (P := fun x => Rep n (fst x) /\ gap_fresh (fst x) /\ wkeep w (snd x) /\
+                                         f_state (fst x) = PassToken true att /\ f_conn (fst x) = ConnOnline).
+      * destruct (f_gap f1) as [rc|cur] eqn:G.
+        -- pose proof (rep_gap _ _ R1) as G1. rewrite G in G1. cbn in G1.
+           destruct (Z.ltb_spec (p_gap_wait (f_p f1)) rc).
+           ++ eapply wp_mono; [apply ngp_wp; [exact R1|unfold ts in *; lia|exact Hgi]|].
+              intros [f2 w2] ((g & E) & R2 & F2 & K2). cbn [fst snd] in *. subst f2.
+              split; [exact R2|]. split; [exact F2|]. split; [eapply wkeep_trans; [apply wkeep_note|exact K2]|].
+              split; [exact Hs1|exact Hon].
+           ++ unfold u8_add. destruct (Z.leb_spec (rc + 1) 255); [|lia]. cbn.
+              split; [apply Rep_set_gap; [exact R1|cbn; lia|apply Hgi]|]. split; [unfold gap_fresh; cbn; exact I|].
+              split; [apply wkeep_note|]. split; [exact Hs1|exact Hon].
+        -- pose proof (rep_gap _ _ R1) as G1. rewrite G in G1. cbn in G1.
+           eapply wp_mono; [apply ngp_wp; [exact R1|exact G1|exact Hgi]|].
+           intros [f2 w2] ((g & E) & R2 & F2 & K2). cbn [fst snd] in *. subst f2.
+           split; [exact R2|]. split; [exact F2|]. split; [exact K2|]. split; [exact Hs1|exact Hon].
+      * intros [f2 w2] (R2 & F2 & K2 & Hs2 & Hon2). cbn [fst snd] in *.
+        eapply wp_mono; [apply tgp_wp; [exact R2|exact Tn|exact (wkeep_tx _ _ K2 Hw)|exact (wkeep_Winv _ _ K2 Wi)|exact F2]|].
+        intros [[f3 w3] polled] (R3 & S3 & W3 & P). split; [exact R3|]. split; [exact W3|].
+        split; [rewrite (sb_state _ _ S3); exact Hs2|]. split; [rewrite (sb_conn _ _ S3); exact Hon2|].
+        destruct polled as [a|]; [|exact P]. rewrite (sb_gap _ _ S3), (sb_ts _ _ S3). exact P.
+    + cbn. tauto.
+  - intros [[f2 w2] polled] (R2 & W2 & Hs2 & Hon2 & P).
+    destruct polled as [a|].
+    + rewrite (trans_ok f2 _ _ (AwaitStatusResponse a)) by (rewrite Hs2; reflexivity).
+      cbn. split; [|apply Winv_note, W2]. apply Rep_set_st; [exact R2|exact Hon2|]. cbn. exact P.
+    + pose proof (Rep_ts n f2 R2) as Hts2.
+      eapply wp_bind; [apply phy_send_token_wp; assumption|].
+      intros [w3 k] (W3 & Hk3). cbn [fst snd] in *.
+      pose proof (ring_ok_ns _ _ (rep_ring _ _ R2) ltac:(lia)) as Hns.
+      destruct (witness_ring_ok (f_ring f2) (ts f2) (ts f2) (r_ns (f_ring f2)) (rep_ring _ _ R2)) as [r' [Er Rr]]; try lia.
+      rewrite Er. cbn [bind].
+      pose proof (Rep_set_ring n f2 r' R2 Rr) as R3.
+      eapply wp_bind with (P := PostRW).
+      * destruct (r_ns (f_ring (set_ring f2 r')) =? ts (set_ring f2 r')).
+        -- rewrite (trans_ok _ _ _ (UseToken now None false)) by (cbn [f_state set_ring]; rewrite Hs2; reflexivity).
+           cbn. split; [|apply Winv_note, Winv_note, W3].
+           apply (Rep_set_st n (set_ring f2 r')); [exact R3|exact Hon2|exact Tn].
+        -- cbn [f_state set_ring]. rewrite Hs2. cbn [get_pass_token bind].
+           rewrite (trans_ok _ _ _ (CheckTokenPass att)) by (cbn [f_state set_ring]; rewrite Hs2; reflexivity).
+           cbn. split; [|apply Winv_note, Winv_note, W3].
+           apply (Rep_set_st n (set_ring f2 r')); [exact R3|exact Hon2|exact I].
+      * intros [f4 w4] (R4 & W4). cbn [fst snd] in *.
+        eapply wp_bind; [apply (mark_tx_wp n); [exact R4|exact Tn|exact Hk3]|].
+        intros f5 (R5 & S5). cbn. split; assumption.
+Qed.
+
+Lemma do_await_status_response_wp f now (w : W) : Rep n f -> time_ok now -> w_tx w = None -> Winv w ->
+  kind_of (f_state f) = KAwaitStatusResponse ->
+  wp (do_await_status_response A f now w) PostRW.
+Proof.
+  intros R Tn Hw Wi Hk. unfold do_await_status_response, assert_entry. rewrite Hk. cbn [do_fn_entry state_kind_eqb bind].
+  destruct (f_state f) as [| | | | | | | | |a] eqn:Hs; try discriminate Hk.
+  cbn [get_await_status_response_address bind].
+  pose proof (rep_st _ _ R) as St. rewrite Hs in St. cbn in St. destruct St as (Eg & Ha).
+  eapply wp_bind; [apply agp_wp; [exact R|exact Tn|exact Wi|exact Eg|exact Ha]|].
+  intros [[f1 w1] r] (R1 & St1 & G1 & Tx1 & W1). rewrite Hs in St1.
+  assert (Hon1 : f_conn f1 = ConnOnline) by (apply (Rep_online n); [exact R1|rewrite St1; discriminate]).
+  destruct r.
+  - cbn. split; assumption.
+  - rewrite (trans_ok f1 _ _ (PassToken false AttFirst)) by (rewrite St1; reflexivity). cbn [bind].
+    apply do_pass_token_wp; [|exact Tn|cbn; congruence|apply Winv_note, W1|reflexivity].
+    apply Rep_set_st; [exact R1|exact Hon1|exact I].
+  - rewrite (trans_ok f1 _ _ (PassToken false AttFirst)) by (rewrite St1; reflexivity). cbn [wp].
+    split; [|apply Winv_note, W1]. apply Rep_set_st; [exact R1|exact Hon1|exact I].
+  - rewrite (trans_ok f1 _ _ (ActiveIdle None None 0)) by (rewrite St1; reflexivity). cbn [wp].
+    split; [|apply Winv_note, W1]. apply Rep_set_st; [exact R1|exact Hon1|cbn; lia].
+Qed.
+
+Definition I_ck (s : fdl * W * bool) : Prop :=
+  Rep n (fst (fst s)) /\ Winv (snd (fst s)) /\
+  (if snd s then kind_of (f_state (fst (fst s))) = KCheckTokenPass else idleish (fst (fst s))).
+Definition J_ck (s : fdl * W * bool) : Prop := Rep n (fst (fst s)) /\ Winv (snd (fst s)).
+
+Lemma check_token_pass_telegram_wp now s t il : time_ok now -> I_ck s -> wf_tel t ->
+  wp (check_token_pass_telegram A now s t il) (fun x => J_ck (fst x) /\ (il = false -> I_ck (fst x))).
+Proof.
+  intros Tn (R & Wi & Hk) Wt. destruct s as [[f w] fi]. cbn [fst snd] in *. unfold check_token_pass_telegram.
+  destruct (mark_rx_rep n f now R Tn) as (R1 & S1).
+  set (f1 := mark_rx f now) in *. clearbody f1.
+  eapply wp_bind with (P := fun x => Rep n (fst x) /\ Winv (snd x) /\ idleish (fst x)).
+  - destruct fi.
+    + assert (Hk1 : kind_of (f_state f1) = KCheckTokenPass) by (rewrite (sb_state _ _ S1); exact Hk).
+      assert (Hon : f_conn f1 = ConnOnline) by (apply (Rep_online n); [exact R1|rewrite Hk1; discriminate]).
+      rewrite (trans_ok f1 _ _ (ActiveIdle None None 0))
+        by (unfold transition_active_idle, assert_kind; rewrite Hk1; reflexivity).
+      cbn. split; [apply Rep_set_st; [exact R1|exact Hon|cbn; lia]|]. split; [apply Winv_note, Winv_note, Wi|].
+      left. reflexivity.
+    + cbn. split; [exact R1|]. split; [exact Wi|]. unfold idleish. rewrite (sb_state _ _ S1). exact Hk.
+  - intros [f2 w2] (R2 & W2 & K2). cbn [fst snd] in *.
+    eapply wp_bind; [apply handle_telegram_wp; [exact Tn|exact R2|exact W2|exact K2|exact Wt]|].
+    intros [f3 w3] (R3 & W3 & K3). cbn [fst snd] in *. cbn. unfold J_ck, I_ck. cbn. tauto.
+Qed.
+
+Lemma do_check_token_pass_wp f now (w : W) : Rep n f -> time_ok now -> w_tx w = None -> Winv w ->
+  kind_of (f_state f) = KCheckTokenPass ->
+  wp (do_check_token_pass A f now w) PostRW.
+Proof.
+  intros R Tn Hw Wi Hk. unfold do_check_token_pass, assert_entry. rewrite Hk. cbn [do_fn_entry state_kind_eqb bind].
+  destruct (f_state f) as [| | | | | | | |att|] eqn:Hs; try discriminate Hk.
+  eapply wp_bind; [apply (check_slot_wp n); assumption|].
+  intros [f1 expired] (R1 & S1). cbn [fst] in *.
+  assert (Hs1 : f_state f1 = CheckTokenPass att) by (rewrite (sb_state _ _ S1); exact Hs).
+  assert (Hon : f_conn f1 = ConnOnline) by (apply (Rep_online n); [exact R1|rewrite Hs1; discriminate]).
+  pose proof (Rep_ts n f1 R1) as Hts.
+  destruct expired.
+  - rewrite Hs1. cbn [get_check_token_pass_attempt bind].
+    eapply wp_bind with (P := fun x => Rep n (fst x) /\ wkeep w (snd x) /\ f_state (fst x) = CheckTokenPass att /\
+                                       f_conn (fst x) = ConnOnline).
+    + destruct (check_pass_removes att).
+      * pose proof (ring_ok_ns _ _ (rep_ring _ _ R1) ltac:(lia)) as Hns.
+        destruct (remove_station_ring_ok (f_ring f1) (ts f1) (r_ns (f_ring f1)) (rep_ring _ _ R1)) as [r' [Er Rr]]; try lia.
+        rewrite Er. cbn. split; [apply Rep_set_ring; assumption|]. split; [apply wkeep_note|]. split; assumption.
+      * cbn. split; [exact R1|]. split; [apply wkeep_note|]. split; assumption.
+    + intros [f2 w2] (R2 & K2 & Hs2 & Hon2). cbn [fst snd] in *.
+      rewrite (trans_ok f2 _ _ (PassToken false (check_pass_next att))) by (rewrite Hs2; reflexivity). cbn [bind].
+      apply do_pass_token_wp; [|exact Tn|exact (wkeep_tx _ _ K2 Hw)|apply Winv_note, (wkeep_Winv _ _ K2 Wi)|reflexivity].
+      apply Rep_set_st; [exact R2|exact Hon2|exact I].
+  - destruct Wi as (Wb & Wa).
+    eapply wp_bind.
+    + apply (receive_all_wp (check_token_pass_telegram A now) I_ck J_ck) with (s := (f1, w, true)).
+      * intros s t Hi Wt. eapply wp_mono; [apply check_token_pass_telegram_wp; assumption|]. cbn beta. intros x (_ & Hx). apply Hx. reflexivity.
+      * intros s t Hi Wt. eapply wp_mono; [apply check_token_pass_telegram_wp; assumption|]. cbn beta. tauto.
+      * unfold I_ck, J_ck. tauto.
+      * unfold receive_all_fuel. lia.
+      * exact Wb.
+      * split; [exact R1|]. split; [split; assumption|]. cbn. rewrite Hs1. reflexivity.
+    + intros [[[[f2 w2] fi] rest] r] ((R2 & (_ & Wa2)) & Hrest). cbn [fst snd] in *.
+      cbn. split; [apply sync_pending_rep, R2|]. split; [|destruct fi; exact Wa2].
+      destruct fi; exact Hrest.
+Qed.
+
+
+(* ------------------------------------------------------------------------------------------ *)
+(* applications, do_use_token, do_await_data_response                                           *)
+
+(* the applications' own totality: every callback returns, and a telegram an application hands
+   to the PHY fits a PHY transmit buffer (at most 65536 bytes; the real buffers have 256) *)
+Definition apps_total : Prop :=
+  (forall a now p hp, exists a' r, a_tx ops a now p hp = Ok (a', r) /\
+      match r with Some (wire, _) => Z.of_nat (length wire) <= 65536 | None => True end) /\
+  (forall a now p addr t, exists a', a_rx ops a now p addr t = Ok a') /\
+  (forall a now p addr, exists a', a_to ops a now p addr = Ok a').
+
+Hypothesis Happs : apps_total.
+
+Lemma replace_nth_length {X} (l : list X) : forall i x, length (replace_nth l i x) = length l.
+Proof. induction l as [|h t IH]; intros [|i] x; cbn; try reflexivity. rewrite IH. reflexivity. Qed.
+
+Lemma Winv_set_app (w : W) i a c : Winv w -> Winv (log_call A (set_app A w i a) c).
+Proof. intros (Wb & Wa). split; cbn; [exact Wb|rewrite replace_nth_length; exact Wa]. Qed.
+
+Lemma app_transmit_wp f now (w : W) idx app hp tk fa fcd : Rep n f -> time_ok now -> w_tx w = None -> Winv w ->
+  f_state f = UseToken tk fa fcd -> (f_next_app f < n)%nat ->
+  wp (app_transmit_telegram A ops f now w idx app hp)
+     (fun x => let '(f1, w1, done) := x in Rep n f1 /\ Winv w1 /\ (done = false -> w_tx w1 = None /\ f1 = f)).
+Proof.
+  intros R Tn Hw Wi Hs Hna. unfold app_transmit_telegram.
+  destruct Happs as (Htx & _ & _). destruct (Htx app now (f_p f) hp) as (a' & r & E & Hr). rewrite E. cbn [bind].
+  assert (Hon : f_conn f = ConnOnline) by (apply (Rep_online n); [exact R|rewrite Hs; discriminate]).
+  pose proof (rep_st _ _ R) as St. rewrite Hs in St. cbn in St.
+  destruct r as [[wire er]|].
+  - unfold phy_transmit. cbn [w_tx log_call set_app]. rewrite Hw. cbn [bind].
+    match goal with |- context [note A ?w0 _] => assert (W1 : Winv w0) by (split; cbn; [apply Wi|rewrite replace_nth_length; apply Wi]) end.
+    eapply wp_bind with (P := PostRW).
+    + destruct er as [addr|].
+      * rewrite Hs. cbn [get_use_token bind].
+        rewrite (trans_ok f _ _ (AwaitDataResponse addr tk fa)) by (rewrite Hs; reflexivity).
+        cbn. split; [|apply Winv_note, Winv_note, W1].
+        apply Rep_set_st; [exact R|exact Hon|cbn; tauto].
+      * cbn. split; [exact R|apply Winv_note, W1].
+    + intros [f1 w1] (R1 & W1'). cbn [fst snd] in *.
+      eapply wp_bind; [apply (mark_tx_wp n); [exact R1|exact Tn|exact Hr]|].
+      intros f2 (R2 & S2). cbn. split; [exact R2|]. split; [exact W1'|discriminate].
+  - cbn. split; [exact R|]. split; [apply Winv_note, Winv_set_app, Wi|]. intros _. split; [exact Hw|reflexivity].
+Qed.
+
+Lemma apps_loop_wp k : forall f now (w : W) hp, (k <= n)%nat -> Rep n f -> time_ok now -> w_tx w = None -> Winv w ->
+  kind_of (f_state f) = KUseToken ->
+  wp (apps_transmit_loop A ops k f now w hp)
+     (fun x => let '(f1, w1, done) := x in
+        Rep n f1 /\ Winv w1 /\ (done = false -> w_tx w1 = None /\ kind_of (f_state f1) = KUseToken)).
+Proof.
+  induction k as [|k IH]; intros f now w hp Hkn R Tn Hw Wi Hk.
+  - cbn. tauto.
+  - cbn [apps_transmit_loop].
+    assert (Hna : (f_next_app f < n)%nat) by (destruct (rep_na _ _ R); lia).
+    destruct (nth_error (w_apps w) (f_next_app f)) as [app|] eqn:En.
+    2:{ apply nth_error_None in En. destruct Wi as (_ & Wa). lia. }
+    destruct (f_state f) as [| | | |tk fa fcd| | | | |] eqn:Hs; try discriminate Hk.
+    eapply wp_bind; [apply (app_transmit_wp f now w (f_next_app f) app hp tk fa fcd); assumption|].
+    intros [[f1 w1] done] (R1 & W1 & Hd). destruct done; [cbn; split; [exact R1|split; [exact W1|discriminate]]|].
+    destruct (Hd eq_refl) as (Hw1 & ->). clear Hd.
+    unfold schedule_next_application. rewrite Hs. cbn [get_use_token bind].
+    destruct W1 as (Wb1 & Wa1). rewrite Wa1.
+    destruct (Nat.eqb_spec n 0) as [C|Hn0]; [lia|]. cbn [bind].
+    match goal with |- context [apps_transmit_loop A ops k ?ff] =>
+      assert (R2 : Rep n ff /\ kind_of (f_state ff) = KUseToken) end.
+    { split; [|reflexivity]. apply Rep_set_next_app.
+      - apply Rep_set_st; [exact R1|apply (Rep_online n); [exact R1|rewrite Hs; discriminate]|].
+        pose proof (rep_st _ _ R1) as St. rewrite Hs in St. exact St.
+      - apply Nat.mod_upper_bound. exact Hn0.
+      - discriminate. }
+    destruct R2 as (R2 & K2).
+    match goal with |- context [if ?c then _ else _] => destruct c end.
+    + cbn. split; [exact R2|]. split; [apply Winv_note; split; assumption|]. intros _. split; [exact Hw1|exact K2].
+    + apply IH; [lia|exact R2|exact Tn|exact Hw1|split; assumption|exact K2].
+Qed.
+
+Lemma bv_ttr f : Rep n f -> 0 <= token_rotation_time (f_p f) <= DMAX.
+Proof. intros R. pose proof (bv_ranges _ (rep_p _ _ R)). apply btt_bound. lia. Qed.
+
+Lemma do_use_token_wp f now (w : W) : Rep n f -> time_ok now -> w_tx w = None -> Winv w ->
+  kind_of (f_state f) = KUseToken ->
+  wp (do_use_token A ops f now w) PostRW.
+Proof.
+  intros R Tn Hw Wi Hk. unfold do_use_token, assert_entry. rewrite Hk. cbn [do_fn_entry state_kind_eqb bind].
+  destruct (f_state f) as [| | | |tk fa fcd| | | | |] eqn:Hs; try discriminate Hk.
+  cbn [get_use_token bind].
+  assert (Hon : f_conn f = ConnOnline) by (apply (Rep_online n); [exact R|rewrite Hs; discriminate]).
+  pose proof (rep_st _ _ R) as St. rewrite Hs in St. cbn in St.
+  eapply wp_bind with (P := fun x => Rep n (fst x) /\ wkeep w (snd x) /\ f_state (fst x) = UseToken tk fa fcd).
+  - destruct (negb (f_last_token_time f =? tk)).
+    + pose proof (bv_ttr f R) as Bt. pose proof (rep_ltt _ _ R) as Bl. unfold time_ok in Bl.
+      rewrite inst_add_ok; [|unfold T62, DMAX in *; lia|exact Bt]. cbn [bind].
+      destruct (f_gap f).
+      * cbn. split; [apply Rep_set_hold; assumption|]. split; [apply wkeep_note|exact Hs].
+      * pose proof (bv_ranges _ (rep_p _ _ R)) as Hbv.
+        pose proof (btt_bound (p_baud (f_p f)) (p_slot_bits (f_p f) + gap_reserve_extra_bits)
+                      ltac:(unfold gap_reserve_extra_bits; lia)) as Bs.
+        unfold p_bits_to_time.
+        rewrite inst_sub_dur_ok; [|unfold T62, DMAX in *; lia|exact Bs].
+        cbn. split; [apply Rep_set_hold; assumption|]. split; [apply wkeep_note|exact Hs].
+    + cbn. split; [exact R|]. split; [apply wkeep_refl|exact Hs].
+  - intros [f1 w1] (R1 & K1 & Hs1). cbn [fst snd] in *.
+    eapply wp_bind; [apply (wait_sync_wp n); assumption|].
+    intros [f2 wait] (R2 & S2). cbn [fst] in *.
+    destruct wait; [cbn; split; [exact R2|apply Winv_note, (wkeep_Winv _ _ K1 Wi)]|].
+    assert (Hs2 : f_state f2 = UseToken tk fa fcd) by (rewrite (sb_state _ _ S2); exact Hs1).
+    assert (Hon2 : f_conn f2 = ConnOnline) by (apply (Rep_online n); [exact R2|rewrite Hs2; discriminate]).
+    rewrite Hs2. cbn [get_use_token bind].
+    pose proof (wkeep_Winv _ _ K1 Wi) as W1. pose proof (wkeep_tx _ _ K1 Hw) as Hw1.
+    assert (Rfc : Rep n (set_st f2 (UseToken tk fa true))) by (apply Rep_set_st; [exact R2|exact Hon2|exact St]).
+    assert (Efc : set_first_cycle_done f2 = Ok (set_st f2 (UseToken tk fa true)))
+      by (unfold set_first_cycle_done; rewrite Hs2; reflexivity).
+    assert (Loop : forall tg hp,
+      wp (apps_transmit_telegram A ops (set_st f2 (UseToken tk fa true)) now (note A w1 tg) hp)
+         (fun x => let '(f3, w3, done) := x in
+            Rep n f3 /\ Winv w3 /\ (done = false -> w_tx w3 = None /\ kind_of (f_state f3) = KUseToken))).
+    { intros tg hp. unfold apps_transmit_telegram.
+      apply apps_loop_wp; [destruct W1 as (_ & Wa); cbn; lia|exact Rfc|exact Tn|exact Hw1|apply Winv_note, W1|reflexivity]. }
+    eapply wp_bind with (P := fun x => let '(f3, w3, done) := x in
+            Rep n f3 /\ Winv w3 /\ (done = false -> w_tx w3 = None /\ kind_of (f_state f3) = KUseToken)).
+    + destruct (now <? f_end_tht f2).
+      * rewrite Efc. cbn [bind]. apply Loop.
+      * destruct (negb fcd).
+        -- rewrite Efc. cbn [bind]. apply Loop.
+        -- cbn. split; [exact R2|]. split; [apply Winv_note, W1|]. intros _. split; [exact Hw1|rewrite Hs2; reflexivity].
+    + intros [[f3 w3] done] (R3 & W3 & Hd). destruct done; [cbn; split; assumption|].
+      destruct (Hd eq_refl) as (Hw3 & K3).
+      rewrite (trans_ok f3 _ _ (PassToken true first_attempt))
+        by (unfold transition_pass_token, assert_kind; rewrite K3; reflexivity).
+      cbn. split; [|apply Winv_note, W3].
+      apply Rep_set_st; [exact R3|apply (Rep_online n); [exact R3|rewrite K3; discriminate]|exact I].
+Qed.
+
+Lemma do_await_data_response_wp f now (w : W) : Rep n f -> time_ok now -> w_tx w = None -> Winv w ->
+  kind_of (f_state f) = KAwaitDataResponse ->
+  wp (do_await_data_response A ops f now w) PostRW.
+Proof.
+  intros R Tn Hw Wi Hk. unfold do_await_data_response, assert_entry. rewrite Hk. cbn [do_fn_entry state_kind_eqb bind].
+  destruct (f_state f) as [| | | | | |addr tk fa| | |] eqn:Hs; try discriminate Hk.
+  cbn [get_await_data_response bind].
+  assert (Hon : f_conn f = ConnOnline) by (apply (Rep_online n); [exact R|rewrite Hs; discriminate]).
+  pose proof (rep_st _ _ R) as St. rewrite Hs in St. cbn in St. destruct St as (Ttk & Hna).
+  destruct Wi as (Wb & Wa).
+  destruct (nth_error (w_apps w) (f_next_app f)) as [app|] eqn:En.
+  2:{ apply nth_error_None in En. lia. }
+  destruct Happs as (_ & Hrx & Hto).
+  unfold receive_telegram. destruct (decode_total (w_rx w)) as [d D]. rewrite D. cbn [bind].
+  assert (Use : forall f' w', Rep n f' -> f_conn f' = ConnOnline -> f_state f' = AwaitDataResponse addr tk fa ->
+     Winv w' -> wp (trans A f' w' (fun s => transition_use_token s tk fa))
+                   (fun x => Rep n (fst x) /\ Winv (snd x) /\ f_state (fst x) = UseToken tk fa false /\ w_tx (snd x) = w_tx w')).
+  { intros f' w' R' C' S' W'. rewrite (trans_ok f' _ _ (UseToken tk fa false)) by (rewrite S'; reflexivity).
+    cbn. split; [apply Rep_set_st; [exact R'|exact C'|exact Ttk]|]. split; [apply Winv_note, W'|]. split; reflexivity. }
+  assert (Timeout : forall w', Winv w' -> w_tx w' = None ->
+    wp (let f0 := sync_pending_bytes A f w' in
+        let* (f1, expired) := check_slot_expired f0 now in
+        if expired then
+          let* app' := a_to ops app now (f_p f1) addr in
+          let w2 := log_call A (set_app A w' (f_next_app f) app') (CallHandleTimeout (f_next_app f) addr) in
+          let* (f2, w3) := trans A f1 (note A w2 TReplyTimeout) (fun s => transition_use_token s tk fa) in
+          let* f3 := set_first_cycle_done f2 in do_use_token A ops f3 now w3
+        else Ok (f1, note A w' TReplyAwait)) PostRW).
+  { intros w' W' Hw'. cbv zeta.
+    destruct (sync_pending_rep n A f w' R) as (R0 & S0).
+    eapply wp_bind; [apply (check_slot_wp n); [exact R0|exact Tn]|].
+    intros [f1 expired] (R1 & S1). cbn [fst] in *.
+    assert (Hs1 : f_state f1 = AwaitDataResponse addr tk fa) by (rewrite (sb_state _ _ S1), (sb_state _ _ S0); exact Hs).
+    assert (Hon1 : f_conn f1 = ConnOnline) by (rewrite (sb_conn _ _ S1), (sb_conn _ _ S0); exact Hon).
+    destruct expired; [|cbn; split; [exact R1|apply Winv_note, W']].
+    destruct (Hto app now (f_p f1) addr) as (a' & E). rewrite E. cbn [bind].
+    eapply wp_bind; [apply Use; [exact R1|exact Hon1|exact Hs1|apply Winv_note, Winv_set_app, W']|].
+    intros [f2 w2] (R2 & W2 & Hs2 & Hw2). cbn [fst snd] in *.
+    unfold set_first_cycle_done. rewrite Hs2. cbn [get_use_token bind].
+    apply do_use_token_wp; [|exact Tn|rewrite Hw2; exact Hw'|exact W2|reflexivity].
+    apply Rep_set_st; [exact R2|apply (Rep_online n); [exact R2|rewrite Hs2; discriminate]|exact Ttk]. }
+  destruct d as [ | |t k]; cbn [bind].
+  - apply Timeout.
+    + destruct (Nat.ltb (length (w_rx w)) (length (w_rx w))); split; cbn; assumption.
+    + destruct (Nat.ltb (length (w_rx w)) (length (w_rx w))); cbn; exact Hw.
+  - apply Timeout.
+    + destruct (Nat.ltb (@length Z []) (length (w_rx w))); split; cbn; try assumption; constructor.
+    + destruct (Nat.ltb (@length Z []) (length (w_rx w))); cbn; exact Hw.
+  - destruct (mark_rx_rep n f now R Tn) as (R1 & S1).
+    assert (Hs1 : f_state (mark_rx f now) = AwaitDataResponse addr tk fa) by (rewrite (sb_state _ _ S1); exact Hs).
+    assert (Hon1 : f_conn (mark_rx f now) = ConnOnline) by (rewrite (sb_conn _ _ S1); exact Hon).
+    assert (W1 : Winv (set_rx A w (skipn k (w_rx w)))) by (split; cbn; [apply all_bytes_skipn, Wb|exact Wa]).
+    destruct (is_valid_response (mark_rx f now) addr t).
+    + destruct (Hrx app now (f_p (mark_rx f now)) addr t) as (a' & E). rewrite E. cbn [bind].
+      match goal with |- context [sync_pending_bytes A ?ff ?ww] =>
+        destruct (sync_pending_rep n A ff ww R1) as (R2 & S2); set (f2 := sync_pending_bytes A ff ww) in * end.
+      eapply wp_bind.
+      * apply Use; [exact R2|rewrite (sb_conn _ _ S2); exact Hon1|rewrite (sb_state _ _ S2); exact Hs1|
+                    apply Winv_note, Winv_set_app, W1].
+      * intros [f3 w3] (R3 & W3 & Hs3 & Hw3). cbn [fst snd] in *.
+        unfold set_first_cycle_done. rewrite Hs3. cbn. split; [|exact W3].
+        apply Rep_set_st; [exact R3|apply (Rep_online n); [exact R3|rewrite Hs3; discriminate]|exact Ttk].
+    + rewrite (trans_ok _ _ _ (ActiveIdle None None 0)) by (rewrite Hs1; reflexivity).
+      cbn. split; [|apply Winv_note, Winv_note, W1].
+      apply Rep_set_st; [exact R1|exact Hon1|cbn; lia].
+Qed.
+
 End WithApps.
